@@ -5,6 +5,8 @@ import (
 	"errors"
 	"fmt"
 	"gosrc.io/xmpp/stanza"
+	"io"
+	"net"
 	"strconv"
 )
 
@@ -41,7 +43,9 @@ func NewSession(c *Client, state SMState) (*Session, error) {
 	}
 
 	if s.err != nil {
-		return nil, NewConnError(s.err, true)
+		// A server that answers with something else than its features will do so again. A connection that was
+		// cut before the features arrived will not: that is as transient as a cut before the stream header.
+		return nil, NewConnError(s.err, !connectionLost(s.err))
 	}
 
 	if !c.transport.IsSecure() {
@@ -50,7 +54,9 @@ func NewSession(c *Client, state SMState) (*Session, error) {
 
 	if !c.transport.IsSecure() && !c.config.Insecure {
 		err := fmt.Errorf("failed to negotiate TLS session : %s", s.err)
-		return nil, NewConnError(err, true)
+		// Permanent when it is a matter of policy (STARTTLS not offered or refused, certificate not accepted),
+		// not when the connection was cut while the client was waiting for <proceed/> or for the handshake.
+		return nil, NewConnError(err, !connectionLost(s.err))
 	}
 
 	if s.TlsEnabled {
@@ -125,9 +131,27 @@ func (s *Session) decodeNext(v interface{}) error {
 func (s *Session) extractStreamFeatures() (f stanza.StreamFeatures) {
 	// extract stream features
 	if s.err = s.decodeNext(&f); s.err != nil {
-		s.err = errors.New("stream open decode features: " + s.err.Error())
+		s.err = fmt.Errorf("stream open decode features: %w", s.err)
 	}
 	return
+}
+
+// connectionLost tells an error caused by the connection itself (closed, reset or timed out under the reader)
+// from an error caused by what the server sent.
+func connectionLost(err error) bool {
+	var syntaxErr *xml.SyntaxError
+	var opErr *net.OpError
+	switch {
+	case errors.Is(err, io.EOF), errors.Is(err, io.ErrUnexpectedEOF):
+		return true
+	case errors.As(err, &syntaxErr):
+		// encoding/xml reports the end of the input inside the (never closed) stream element this way
+		return syntaxErr.Msg == "unexpected EOF"
+	case errors.As(err, &opErr):
+		// not "remote error": a TLS alert is an answer of the server
+		return opErr.Op == "read" || opErr.Op == "write"
+	}
+	return false
 }
 
 func (s *Session) startTlsIfSupported(o *Config) {
@@ -147,7 +171,7 @@ func (s *Session) startTlsIfSupported(o *Config) {
 
 		var k stanza.TLSProceed
 		if s.err = s.decodeNext(&k); s.err != nil {
-			s.err = errors.New("expecting starttls proceed: " + s.err.Error())
+			s.err = fmt.Errorf("expecting starttls proceed: %w", s.err)
 			return
 		}
 
